@@ -1073,6 +1073,13 @@ class Executor:
         sub.old_state = self.old_state
         sub.tag = self.tag + fi.short + "~"
         sub.bound = self.bound
+        # ghost variables of the enclosing contract stay visible (as ghost arguments only) to contracted calls made from inlined code
+        og = dict(getattr(self, "outer_ghosts", {}))
+        if self.spec is not None:
+            for g in self.spec.ghost:
+                if g in st.vars and st.vars[g] is not POISON:
+                    og[g] = st.vars[g]
+        sub.outer_ghosts = og
         formals = self.bind_args(fi, args, kwargs, st)
         if spec is not None:
             for n, ktxt in spec.params.items():
@@ -1178,6 +1185,8 @@ class Executor:
                     self.spec_mode = saved
             elif g in st.vars and st.vars[g] is not POISON:
                 gv = st.vars[g]
+            elif g in getattr(self, "outer_ghosts", {}):
+                gv = self.outer_ghosts[g]
             else:
                 raise OutOfSubset("%s: no value for ghost parameter %s of %s" % (self.fi.qual, g, fi.qual))
             formals[g], _ = coerce(gv, self.kind_of(ktxt))
